@@ -31,6 +31,13 @@ def case_key(tr, b):
         return "C18:maxn:numeric-key-outside-the-list-ignored"     # the expected maximum is a key outside the list
     if op == "sort" and ev["cmp"]["kind"] == "ltnil" and why == "sort:error" and "function expected" in ev.get("msg", ""):
         return "C18:sort:explicit-nil-comparator-rejected"
+    if op == "insx" and why == "noerr":
+        return "C18:insert:extra-arguments-accepted"
+    if op in ("rem", "rem_end") and why == "res" and ev["res"] == [["nil"]] and \
+            (npre == 0 if op == "rem_end" else (ev["pos"] > npre or npre == 0)):
+        return "C18:remove:no-element-returns-nil"                 # one nil instead of no value at all
+    if op == "rem" and ev["pos"] < 1 and why in ("res", "rd", "len", "getn") and npre > 0:
+        return "C18:remove:position-below-1-removes-last"
     if op == "rem_end" and tail_pre > 0 and why in ("res", "rd", "len", "getn"):
         return "C18:remove:trailing-nil-in-array"
     if op == "sort" and tail_pre > 0:
@@ -160,7 +167,8 @@ def run_chunk(hists, base, par, tag, verd, stats, batch):
             stats["events"] += v["done"]
             done[v["id"]] = v["done"]
             resynced = any(b["why"] != "q" for b in v["bads"])
-            if v["stop"] == "ood" and resynced:
+            forked = any(e["op"] == "ins" and e["pos"] <= 0 for e in tr["ev"][:v["done"]])   # the spec left a choice open
+            if v["stop"] == "ood" and (resynced or forked):
                 v["stop"] = "ood-after-resync"      # the rest of the history was planned for the expected list: not judged
             if v["stop"] in INFRA_WHY:
                 raise vlib.Infra("history %s#%d left the model: %s at event %d: %s" % (
@@ -415,7 +423,7 @@ def run(tier):
     for i, h in enumerate(hs):
         if not any(o["op"] == "setx" for o in h):
             continue                    # without setx: family 2
-        if (i + seed) % (12 if not thorough else (1 if len(h) < xdepth else 40)) != 0:
+        if (i + seed) % (24 if not thorough else (2 if len(h) < xdepth else 100)) != 0:
             continue
         hists.append({"h": h, "q": "last", "id": i + 1, "xkeys": XKEYS_MC})
         distinct.add(vlib.canon_hash(h))
@@ -466,7 +474,8 @@ def run(tier):
         "every library call is made on a proper list (1<=pos<=n+1 for insert, 1<=pos<=n for remove, assignments to t[1..n+1], t[n]=nil), possibly with numeric keys outside it (0, negative, i+0.5, 2^e); "
         "while a positive integer key beyond a hole exists #t is ambiguous: only reads, maxn, # being a border and explicit concat/unpack ranges are judged, list calls resume when it is cleared",
         "concat of long lists (2555..30000 elements of non-negative integers) is compared by length and two 15-bit polynomial hashes of the bytes, both sides defined by ListLib!ConcatDigest",
-        "table.remove on an empty list may return nothing or nil (the manual is silent)",
+        "insert and remove are judged at every integer position as ltablib.c defines them (outside 1..#t remove does nothing and returns no value; insert beyond #t+1 stores without shifting; more than three arguments raise); "
+        "insert at pos <= 0 is left open between the reference's literal loop (t[0] shifts into t[1]) and a plain store at pos - nothing else is admitted",
         "error message texts are not compared, only whether a call raises",
         "elements are small integers, one-letter strings, true and tables; number formatting in concat is not exercised beyond integers",
         "TLC explores ListRef within list length <= %d over 5 values; histories replayed: depth <= 4 exhaustive (thorough: a quarter of depth %d), 30 random" % (5 if thorough else 4, depth),
